@@ -25,6 +25,7 @@ GEN_MOD = "Ampverif.Gen.C08"
 FLT_MOD = "Ampverif.GenFloat.C08"
 PROP_MODULES = ["Ampverif.Props.C08"]
 P4 = list(X.MOMENTUM_COMPONENTS)
+Q4 = ["Eq", "qx", "qy", "qz"]
 
 
 # =============================================================================== targets
@@ -35,7 +36,7 @@ def targets():
     import sympy as sp
 
     from ampform.kinematics import lorentz as lz
-    from ampform.sympy._array_expressions import ArrayMultiplication, MatrixMultiplication
+    from ampform.sympy._array_expressions import ArrayMultiplication, ArraySum, MatrixMultiplication
 
     p = lz.FourMomentumSymbol("p", shape=[])
     beta, a, b = sp.symbols("beta a b", real=True)
@@ -70,6 +71,29 @@ def targets():
     t["rotYZp"] = dict(obj=ArrayMultiplication(lz.RotationYMatrix(a, n_events=na), lz.RotationZMatrix(b, n_events=na), p),
                        args=[a, b, p], kinds=kabp, params=["a", "b", *P4], shape=(4,),
                        doc="ArrayMultiplication(RotationYMatrix(a), RotationZMatrix(b), p)", code_only=True)
+    # ---- COMPOUND arguments: every `_numpycode` template must print its argument holes as atoms or
+    # parenthesised. Representatives of the precedence classes of printed expressions: a top-level
+    # sum/difference (Add), a negated quotient (Mul with sign), a power (Pow); for array arguments a
+    # sum of arrays. Theorems: generated code (cse off/on) = the explicit matrix AT the compound argument.
+    b1, b2 = sp.symbols("b1 b2", real=True)
+    n1 = lz.ArraySize(b1)
+    k12 = {"b1": ("scalar", "b1"), "b2": ("scalar", "b2")}
+    forms = {"Add": b1 - b2, "Mul": -b1 / b2, "Pow": b1**2}
+    classes = {"boostZ": lz.BoostZMatrix, "rotY": lz.RotationYMatrix, "rotZ": lz.RotationZMatrix}
+    for cname, cls in classes.items():
+        for fname, arg in forms.items():
+            t[f"{cname}{fname}"] = dict(obj=cls(arg, n_events=n1), args=[b1, b2], kinds=k12, params=["b1", "b2"],
+                                        shape=(4, 4), doc=f"{cls.__name__}({arg})", code_only=True,
+                                        kind="b12" + fname, compound=str(arg))
+    q = lz.FourMomentumSymbol("q", shape=[])
+    kpq = {"p": ("vec", P4), "q": ("vec", Q4)}
+    psum = ArraySum(p, q)
+    t["boostSum"] = dict(obj=lz.BoostMatrix(psum), args=[p, q], kinds=kpq, params=[*P4, *Q4], shape=(4, 4),
+                         doc="BoostMatrix(ArraySum(p, q))", code_only=True, kind="pq", compound="p + q")
+    t["negMomSum"] = dict(obj=lz.NegativeMomentum(psum), args=[p, q], kinds=kpq, params=[*P4, *Q4], shape=(4,),
+                          doc="NegativeMomentum(ArraySum(p, q))", code_only=True, kind="pq", compound="p + q")
+    t["metricSum"] = dict(obj=lz.MinkowskiMetric(psum), args=[p, q], kinds=kpq, params=[], shape=(4, 4),
+                          doc="MinkowskiMetric(ArraySum(p, q))", code_only=True, kind="pq", compound="p + q")
     return t
 
 
@@ -137,10 +161,23 @@ def _points(kind: str, rng, n: int):
         elif kind == "abp":
             p, _, _ = O.momentum(rng, (-2.0, 2.0))
             pts.append([rng.uniform(-7, 7), rng.uniform(-7, 7), *p])
+        elif kind == "b12Add":  # b1 - b2 in (-0.9, 0.9)
+            pts.append([rng.uniform(-0.45, 0.45), rng.uniform(-0.45, 0.45)])
+        elif kind == "b12Mul":  # -b1/b2 in (-0.95, 0.95)
+            b2 = rng.choice([-1, 1]) * rng.uniform(0.2, 3.0)
+            pts.append([rng.uniform(-0.95, 0.95) * b2, b2])
+        elif kind == "b12Pow":  # b1**2 < 0.91
+            pts.append([rng.uniform(-0.95, 0.95), rng.uniform(-1, 1)])
+        elif kind == "pq":
+            p, _, _ = O.momentum(rng, (-2.0, 1.5))
+            q, _, _ = O.momentum(rng, (-2.0, 1.5))
+            pts.append([*p, *q])
     return pts
 
 
 def _kind_of(tgt) -> str:
+    if "kind" in tgt:
+        return tgt["kind"]
     ps = tgt["params"]
     if ps == []:
         return "p"  # the metric takes p only for its length
@@ -155,6 +192,13 @@ def _cond(kind: str, pt) -> float:
         return E * E / m2 if m2 > 0 else float("inf")
     if kind == "beta":
         return 1.0 / (1.0 - pt[0] ** 2)
+    if kind.startswith("b12"):
+        b = {"b12Add": pt[0] - pt[1], "b12Mul": -pt[0] / pt[1], "b12Pow": pt[0] ** 2}[kind]
+        return 1.0 / (1.0 - b * b) if abs(b) < 1 else float("inf")
+    if kind == "pq":
+        E, x, y, z = [pt[i] + pt[i + 4] for i in range(4)]
+        m2 = E * E - (x * x + y * y + z * z)
+        return E * E / m2 if m2 > 0 else float("inf")
     return 1.0
 
 
@@ -197,6 +241,8 @@ def validate(chk, families, rng, n: int):  # noqa: C901, PLR0912, PLR0915
         arr = np.array(pts, dtype=float)
         if kind in ("p",):
             arrays = [arr]
+        elif kind == "pq":
+            arrays = [arr[:, :4], arr[:, 4:]]
         elif kind == "abp":
             arrays = [arr[:, 0], arr[:, 1], arr[:, 2:]]
         else:
@@ -298,6 +344,61 @@ def einsum_correspondence(chk, n_max: int):
         chk.broken_correspondence("einsum-model", d)
 
 
+# =============================================================================== template holes (probe)
+
+
+def template_hole_probe():
+    """Which argument holes of the `_…Implementation._numpycode` templates are NOT atomic?
+
+    Each implementation class is instantiated DIRECTLY on independent symbols `H_<field>`; in the
+    generated source every hole is replaced textually by `u + v` and by `(u + v)`; if the two parse
+    differently the template does not protect that hole against an argument that prints as a sum.
+    Informational: the public classes only ever fill those holes through `evaluate()` (checked by
+    the compound-argument families/theorems); a hole listed here becomes wrong code only when a user
+    rewrites the arguments after `doit()` (e.g. `.expand()`), which is outside C08's observation
+    point `lambdify(expr.doit())`."""
+    import ast as pyast
+    import re
+
+    import sympy as sp
+
+    from ampform.kinematics import lorentz as lz
+
+    n = lz.ArraySize(sp.Symbol("H_n"))
+    ones, zeros = lz._OnesArray(n), lz._ZerosArray(n)  # noqa: SLF001
+    p = lz.FourMomentumSymbol("p", shape=[])
+    H = lambda f: sp.Symbol(f"H_{f}", real=True)  # noqa: E731
+    instances = {
+        "_BoostZMatrixImplementation": (lz._BoostZMatrixImplementation, ["beta", "gamma", "gamma_beta"],  # noqa: SLF001
+                                        lambda h: dict(beta=h["beta"], gamma=h["gamma"], gamma_beta=h["gamma_beta"], ones=ones, zeros=zeros)),
+        "_RotationYMatrixImplementation": (lz._RotationYMatrixImplementation, ["angle", "cos_angle", "sin_angle"],  # noqa: SLF001
+                                           lambda h: dict(angle=h["angle"], cos_angle=h["cos_angle"], sin_angle=h["sin_angle"], ones=ones, zeros=zeros)),
+        "_RotationZMatrixImplementation": (lz._RotationZMatrixImplementation, ["angle", "cos_angle", "sin_angle"],  # noqa: SLF001
+                                           lambda h: dict(angle=h["angle"], cos_angle=h["cos_angle"], sin_angle=h["sin_angle"], ones=ones, zeros=zeros)),
+        "_BoostMatrixImplementation": (lz._BoostMatrixImplementation,  # noqa: SLF001
+                                       ["b00", "b01", "b02", "b03", "b11", "b12", "b13", "b22", "b23", "b33"],
+                                       lambda h: dict(momentum=p, **h)),
+    }
+    out = {}
+    for cname, (cls, fields, mk) in instances.items():
+        h = {f: H(f) for f in fields}
+        obj = cls(**mk(h))
+        src = inspect.getsource(sp.lambdify([*h.values(), sp.Symbol("H_n"), p], obj, "numpy", cse=False))
+        body = src.split("return", 1)[1].strip()
+        unsafe, unused = [], []
+        for f in fields:
+            pat = re.compile(rf"\bH_{f}\b")
+            if not pat.search(body):
+                unused.append(f)
+                continue
+            a = pyast.dump(pyast.parse(pat.sub("u + v", body), mode="eval"))
+            b = pyast.dump(pyast.parse(pat.sub("(u + v)", body), mode="eval"))
+            if a != b:
+                unsafe.append(f)
+        out[cname] = {"holes_not_atomic": unsafe, "fields_not_printed": unused}
+    return out
+
+
 # =============================================================================== the property
 
 
@@ -374,6 +475,10 @@ class C08Property:
                 chk.broken_correspondence("float-twin", "".join(traceback.format_exception_only(type(e), e))[-600:])
 
         try:
+            chk.info("template_hole_probe", template_hole_probe())
+        except Exception as e:  # noqa: BLE001  informational only
+            chk.info("template_hole_probe", {"error": repr(e)[:300]})
+        try:
             einsum_correspondence(chk, self.n_einsum[tier])
         except common.LeanRunError as e:
             chk.broken_correspondence("einsum-model", f"Lean driver failed: {e}"[:800])
@@ -437,7 +542,12 @@ MANIFEST = {
         "R(a)R(b) = R(a+b); generated code = explicit matrix entrywise for both cse settings as functions on all reals "
         "(hence the same Lorentz properties for the code's own arrays: boostCode_proper, boostNegCode_inverse, "
         "boostZCode_proper, rotCode_proper); "
-        "the generated einsum code for 2 and 3 arrays computes the matrix(-vector) products. For EVERY number n of arrays "
+        "the generated einsum code for 2 and 3 arrays computes the matrix(-vector) products. COMPOUND ARGUMENTS: the code "
+        "generated for BoostZ/RotationY/RotationZ with a difference, a negated quotient and a power as argument, and for "
+        "BoostMatrix/NegativeMomentum/MinkowskiMetric of a SUM of momenta, equals the explicit matrix at that argument "
+        "(theorems *AddCode_eq, *MulCode_eq, *PowCode_eq, *SumCode_eq: one representative per precedence class of printed "
+        "expressions, so a template that splices an argument without parentheses is caught; this is a finite sample of "
+        "argument shapes, not a theorem about all arguments). For EVERY number n of arrays "
         "(induction; n <= 18 resp. 17, the alphabet limit of the source, beyond which the generated string is malformed — "
         "proved as well) the subscripts of ArrayMultiplication/MatrixMultiplication denote M1(M2(...v)) resp. M1...Mn "
         "under numpy's explicit-mode einsum semantics, over any commutative semiring and any dimension. "
@@ -452,6 +562,10 @@ MANIFEST = {
         "lambdified arrays on random batches; the einsum model is tied by exact string equality for n = 0..24 (40 in "
         "thorough). Executed, not modelled: sympy's lambdify/cse and standard printers, numpy (einsum, broadcasting), "
         "floating-point rounding (the oracle bounds it condition-aware: relative error of gamma ~ eps*(2 gamma^2+8)). "
+        "The oracle also runs instances with compound arguments (sums, 1-eps, quotients, products with a sum, velocities "
+        "computed from a momentum, p+q, the boost chain BoostMatrix(B(q)p)). Observation point is lambdify(expr.doit()); "
+        "rewriting the arguments of an _…Implementation object after doit() (e.g. .expand()) is outside it — the "
+        "template_hole_probe in the evidence lists the holes ('-{gamma_beta}', '-{sin_angle}') that are not protected then. "
         "Real-number theorems use Lean's x/0 = 0 only in the unconditional 'code = explicit' equalities."
     ),
 }
